@@ -256,8 +256,13 @@ let mk_ctx capf poolf =
   let cap = int_of_string capf in
   { pool; cap; hash = hashf pool; capn = nat_of_int cap }
 
-let run_hist ctx ops =
-  List.fold_left (fun st o -> snd (do_op ctx st o)) (init_st ctx) ops
+(* runs a history; C.<n> items change the configured cap. Returns the state and the final configuration *)
+let run_hist ctx0 ops =
+  let (st, ctx) = List.fold_left (fun (st, ctx) o ->
+    match o with
+    | OCap n -> (st, { ctx with cap = n; capn = nat_of_int n })
+    | _ -> (snd (do_op ctx st o), ctx)) (init_st ctx0, ctx0) ops in
+  (st, ctx)
 
 let acc_op mb = OAdd (mb, "zz", 1700000000, "new mail\r\n", 1)
 
@@ -272,8 +277,7 @@ let () =
     let (kind, ins, outs) = Mlutil.split_case line in
     match kind, ins with
     | "plan", [capf; poolf; histf; opf] ->
-        let ctx = mk_ctx capf poolf in
-        let st = run_hist ctx (parse_ops histf) in
+        let (st, ctx) = run_hist (mk_ctx capf poolf) (parse_ops histf) in
         let o = parse_op opf in
         let (op, mb) = mk_op ctx st o in
         let ss = steps enc dec ctx.hash ctx.capn op st.d in
@@ -291,8 +295,7 @@ let () =
         Mlutil.print_model ["seq=" ^ seq; "res=" ^ r; "pre=" ^ pre; "post=" ^ state ctx st'; "vis=" ^ visit_s ctx st';
                             "nv=" ^ string_of_int nv] verdict
     | "crash", [capf; poolf; histf; opf; kf] ->
-        let ctx = mk_ctx capf poolf in
-        let st = run_hist ctx (parse_ops histf) in
+        let (st, ctx) = run_hist (mk_ctx capf poolf) (parse_ops histf) in
         let o = parse_op opf in
         let k = int_of_string kf in
         let (op, mb) = mk_op ctx st o in
@@ -351,8 +354,7 @@ let () =
              | Some r -> "fail:" ^ r) in
         Mlutil.print_model model verdict
     | "visit", [capf; poolf; histf; opf; kf; jf] ->
-        let ctx = mk_ctx capf poolf in
-        let st = run_hist ctx (parse_ops histf) in
+        let (st, ctx) = run_hist (mk_ctx capf poolf) (parse_ops histf) in
         let o = parse_op opf in
         let k = int_of_string kf and j = int_of_string jf in
         let (op, mb) = mk_op ctx st o in
